@@ -174,6 +174,26 @@ func (g *Gen) selectField(h *Heap, base Val, name string) Val {
 			}
 		}
 	}
+	// heap well-formedness at function entry for interface-valued fields: the object inside exists
+	if s == "Iface" && strings.HasPrefix(arr, "F!") && !strings.Contains(term, "q!") && !strings.Contains(term, "dummy!") {
+		if _, modified := h.cur[arr]; !modified {
+			if _, am := h.cur["alloc"]; !am {
+				key := "wfi:" + term
+				if !g.assumed[key] {
+					g.assumed[key] = true
+					g.assume(fmt.Sprintf("(or (= (i-val %s) 0) (select %s (i-val %s)))", term, g.arr(h, "alloc", "Bool"), term))
+				}
+			}
+		}
+	}
+	// typing invariant of slice-valued fields (the Go type guarantees it for every heap state)
+	if s == "Slice" && strings.HasPrefix(arr, "F!") && !strings.Contains(term, "q!") && !strings.Contains(term, "dummy!") {
+		key := "wfs:" + term
+		if !g.assumed[key] {
+			g.assumed[key] = true
+			g.assume(fmt.Sprintf("(wfslice %s)", term))
+		}
+	}
 	return Val{T: term, Ty: fty, Loc: &Loc{Arr: arr, Sort: s, Idx: idx, Ty: fty}}
 }
 
